@@ -157,14 +157,24 @@ def finishScans (S : Sem P V) (onnx : Bool) : List (List V) → Except Err (List
 
 def replicateNil (n : Nat) : List (List V) := List.replicate n []
 
+/-- `trip_count.unwrap_or(i32::MAX)` (`none`: the input is not a single element). -/
+def tripOf (S : Sem P V) : Option V → Option Int
+  | none => some 2147483647
+  | some v => S.item v
+
+/-- `cond.unwrap_or(1)`. -/
+def condOf (S : Sem P V) : Option V → Option Int
+  | none => some 1
+  | some v => S.item v
+
 /-- `Loop::run_subgraph` given the looked-up inputs (`tripV`, `condV`, carried values) and a body
 runner. -/
 def loopCore (S : Sem P V) (onnx : Bool) (run : Nat → List V → Except Err (List V))
     (bodyIn bodyOut : Nat) (tripV condV : Option V) (cs : List V) : Except Err (List V) :=
-  match (match tripV with | none => some (2147483647 : Int) | some v => S.item v) with
+  match tripOf S tripV with
   | none => .error .badCond
   | some m =>
-    match (match condV with | none => some (1 : Int) | some v => S.item v) with
+    match condOf S condV with
     | none => .error .badCond
     | some c0 =>
       if bodyIn != 2 + cs.length then .error .arity
